@@ -63,7 +63,7 @@ Section Oracles.
   Proof.
     intros Hb Hh. destruct (read_node_section (o_zeof o) (o_maxs o) c d rest Hb) as (p & Hp & Hr).
     unfold next_block. rewrite Hr. destruct (o_trusted o) eqn:Et; [reflexivity|].
-    unfold verify. rewrite (Hh eq_refl p Hp). reflexivity.
+    unfold verify. pose proof (Hh eq_refl p Hp) as X. cbn [fst snd] in X. rewrite X. reflexivity.
   Qed.
 
   Lemma scan_blocks_sections o bs : 
